@@ -7,6 +7,7 @@ import (
 	"fmt"
 	"reflect"
 	"strings"
+	"sync"
 
 	"github.com/hashicorp/go-argmapper/internal/graph"
 	"github.com/hashicorp/go-multierror"
@@ -145,8 +146,13 @@ func (f *Func) redefineInputs(opts ...Arg) (reflect.Type, error) {
 	for _, v := range g.Vertices() {
 		switch v := v.(type) {
 		case *funcVertex:
-			// Copy the func since we're going to modify a field in it.
+			// Copy the func since we're going to modify a field in it. The
+			// copy gets its own lock: results memoized while planning must
+			// never be visible to real calls.
+			v.Func.onceMu.Lock()
 			fCopy := *v.Func
+			v.Func.onceMu.Unlock()
+			fCopy.onceMu = new(sync.Mutex)
 			v.Func = &fCopy
 
 			// Modify the function to be a zero producing function.
